@@ -41,3 +41,16 @@ Example C20_serial_traces :
     Some [[]; []; [BCall 0 (VInt 100); BCall 2 (VInt 100)]; []; []; [BCall 0 (VInt 1); BCall 1 (VInt 1)]].
 Proof. split; [exact serial_ab_calls | exact serial_ba_calls]. Qed.
 Print Assumptions C20_serial_traces.
+
+(* which thread opens or closes a bracket is irrelevant to the execution: a scoped transaction handed to another
+   thread (opened by one, closed by the other) behaves like the same transaction run by one thread *)
+Theorem C20_bracket_thread_irrelevant : forall (flips : list bool) (s : schedule),
+    length flips = length s ->
+    run_schedule (map (fun p => relabel_bracket (fst p) (snd p)) (combine flips s)) = run_schedule s.
+Proof. exact run_schedule_relabel. Qed.
+Print Assumptions C20_bracket_thread_irrelevant.
+
+Example C20_handoff_trace :
+  run_schedule handoff = Some [[]; []; [BCall 0 (VInt 7); BCall 1 (VInt 7)]].
+Proof. exact handoff_calls. Qed.
+Print Assumptions C20_handoff_trace.
